@@ -59,6 +59,12 @@ def farm_saves(A):
 
 def run(W, chk):
     fm = "farm_manager"
+    # every expired farm found is closed and refunded: the closing loop is not left early; the expiry clock starts after the last epoch
+    from rules.common import all_elements_processed, farm_expiry_epoch
+    for vp in (("ManageFarm", ".action", "Create"), ("ManageFarm", ".action", "Close")):
+        X = W.run(fm, "execute", vp)
+        all_elements_processed(chk, W, X, r"^Store\(FARMS\)", vp[-1], "LOOP-all-elements")
+    farm_expiry_epoch(chk, W.run(fm, "execute", ("ManageFarm", ".action", "Create")), "Create")
     # ------------------------------------------------------------ creation guards
     guards = [
         ("lp denom from pool manager", [LP_BY_PM(MP)], ()),
